@@ -10,7 +10,7 @@
    bytes (always true unless channels*bytes_per_sample and the frame count are both odd -
    see C16_odd_length_refuted). *)
 From Coq Require Import List Arith Bool NArith ZArith Lia.
-From PV Require Import Common.Cases C16.Model C16.Spec C16.ProofsA C16.ProofsB C16.ProofsC C16.ProofsD.
+From PV Require Import Common.Cases C16.Model C16.Spec C16.ProofsA C16.ProofsB C16.ProofsC C16.ProofsD C16.ProofsE.
 Import ListNotations.
 Local Open Scope nat_scope.
 
@@ -175,10 +175,10 @@ Theorem C16_odd_length_refuted :
     snd (file_stream c seq0 src sched) = Raised ValueError /\
     length (s_out (fst (file_stream c seq0 src sched))) = 1 /\ data_packets c src = 2.
 Proof.
-  exists {| c_fs := 1; c_latency := 704; c_start := 5000; c_ssrc := 7; c_lim := 1000; c_close := None |},
+  exists {| c_send := send_audio_packet V1; c_fs := 1; c_latency := 704; c_start := 5000; c_ssrc := 7; c_lim := 1000; c_close := None |},
          65535%N, (repeat 9%N 353), (plain_sched 6).
   split; [|split; [|split; [|split; [|split; [|split]]]]].
-  - unfold wf_cfg; cbn; unfold SEQMOD, TSLIM; repeat split; lia.
+  - split; [exact plain_v1|]. cbn; unfold SEQMOD, TSLIM; repeat split; lia.
   - vm_compute. discriminate.
   - apply Forall_forall. intros l Hl. apply repeat_spec in Hl. subst l. reflexivity.
   - vm_compute. lia.
@@ -196,17 +196,66 @@ Theorem C16_timestamp_limit : forall c first s frames,
 Proof. exact emit_ts_limit. Qed.
 Print Assumptions C16_timestamp_limit.
 
+(* The protocol objects.  StreamClient stores in the backlog whatever send_audio_packet RETURNS;
+   for the retransmission to be byte-identical that must be the datagram that was sent.  All
+   three variants in pyatv meet the obligation (AirPlayV1; AirPlayV2 without and with the
+   ChaCha20 audio cipher, where the wire packet is header ++ ciphertext ++ 8 nonce bytes), and
+   the first two are "plain" (header ++ audio), so every theorem above applies to them. *)
+Theorem C16_protocols_return_what_they_sent :
+  returns_what_it_sent (send_audio_packet V1) /\ returns_what_it_sent (send_audio_packet V2plain) /\
+  returns_what_it_sent (send_audio_packet V2cipher) /\
+  plain_protocol (send_audio_packet V1) /\ plain_protocol (send_audio_packet V2plain).
+Proof. exact (conj returns_v1 (conj returns_v2plain (conj returns_v2cipher (conj plain_v1 plain_v2plain)))). Qed.
+Print Assumptions C16_protocols_return_what_they_sent.
+
+(* For ANY protocol object meeting the obligation - any configuration, any source script (also one
+   that raises), any schedule, any point of the run: every backlog entry is a datagram that went
+   out on the audio transport, and every answer to a retransmit request is such a datagram, byte
+   for byte, behind the 4-byte retransmit header. *)
+Theorem C16_retransmit_byte_identical_any_protocol : forall c seq0 script sched,
+  returns_what_it_sent (c_send c) ->
+  (forall k v, In (k, v) (s_backlog (fst (stream c seq0 script sched))) ->
+               In v (s_out (fst (stream c seq0 script sched)))) /\
+  (forall first count x,
+     In x (retransmit (s_backlog (fst (stream c seq0 script sched))) first count) ->
+     exists d, In d (s_out (fst (stream c seq0 script sched))) /\
+               x = [128; 214]%N ++ firstn 2 (skipn 2 d) ++ d).
+Proof.
+  intros c seq0 script sched H. split.
+  - exact (stream_inv c H seq0 script sched).
+  - intros first count x. exact (retransmit_identical c H seq0 script sched first count x).
+Qed.
+Print Assumptions C16_retransmit_byte_identical_any_protocol.
+
+(* The obligation is needed: a protocol object that encrypts for the wire but returns the
+   unencrypted packet makes the control client retransmit bytes that were never sent. *)
+Theorem C16_unfaithful_protocol_refuted :
+  exists c seq0 script sched first count x,
+    ~ returns_what_it_sent (c_send c) /\
+    In x (retransmit (s_backlog (fst (stream c seq0 script sched))) first count) /\
+    forall d, In d (s_out (fst (stream c seq0 script sched))) -> x <> [128; 214]%N ++ firstn 2 (skipn 2 d) ++ d.
+Proof.
+  exists {| c_send := fun n h a => (fst (send_audio_packet V2cipher n h a), h ++ a);
+            c_fs := 1; c_latency := 352; c_start := 0; c_ssrc := 1; c_lim := 1000; c_close := None |},
+         7%N, [Ok [1; 2]%N], (plain_sched 4), 7%N, 1%N.
+  eexists. split; [|split].
+  - intro H. specialize (H 0 [] [1%N]). vm_compute in H. discriminate.
+  - vm_compute. left. reflexivity.
+  - intros d Hd. vm_compute in Hd. destruct Hd as [<-|[<-|[]]]; vm_compute; discriminate.
+Qed.
+Print Assumptions C16_unfaithful_protocol_refuted.
+
 (* ------------------------------------------------------------------ non-vacuity *)
-(* pyatv's real parameters: stereo 16 bit, latency 22050+44100, backlog 1000, start at 65534 *)
+(* pyatv's real parameters (AirPlay v2 without audio cipher): stereo 16 bit, latency 22050+44100, backlog 1000, start at 65534 *)
 Definition real_cfg : cfg :=
-  {| c_fs := 4; c_latency := 66150; c_start := 123456789; c_ssrc := 305419896; c_lim := PACKET_BACKLOG_SIZE;
+  {| c_send := send_audio_packet V2plain; c_fs := 4; c_latency := 66150; c_start := 123456789; c_ssrc := 305419896; c_lim := PACKET_BACKLOG_SIZE;
      c_close := None |}.
 
 Example C16_ex_wf : wf_cfg real_cfg 65534 /\ ts_fit real_cfg (all_packets real_cfg (repeat 1%N 3520))
                     /\ silence_packets real_cfg = 188.
 Proof.
   split; [|split].
-  - unfold wf_cfg; cbn; unfold SEQMOD, TSLIM, PACKET_BACKLOG_SIZE; repeat split; lia.
+  - split; [exact plain_v2plain|]. cbn; unfold SEQMOD, TSLIM, PACKET_BACKLOG_SIZE; repeat split; lia.
   - vm_compute. discriminate.
   - reflexivity.
 Qed.
@@ -215,7 +264,7 @@ Qed.
    packets; the request (first=65534, count=4) spans the wrap and is answered with 4 replies
    carrying sequence numbers 65534, 65535, 0, 1 *)
 Example C16_ex_wrap :
-  let c := {| c_fs := 4; c_latency := 704; c_start := 1000000; c_ssrc := 305419896; c_lim := 1000; c_close := None |} in
+  let c := {| c_send := send_audio_packet V1; c_fs := 4; c_latency := 704; c_start := 1000000; c_ssrc := 305419896; c_lim := 1000; c_close := None |} in
   let s := fst (file_stream c 65534 (pattern 7 3 3520) (plain_sched 8)) in
   length (s_out s) = 5 /\
   map seq_of_dgram (s_out s) = [65534; 65535; 0; 1; 2]%N /\
